@@ -184,6 +184,11 @@ func (s *session) newEndpoint(id int, c *simConn) *endpoint {
 		s.frames[id] = append(s.frames[id], append([]byte(nil), p...))
 		return nil
 	}
+	c.onWritten = func(n, total int) {
+		if n != total {
+			s.r.ev("wrp %d %d %d", id, n, total)
+		}
+	}
 	e.xp = NewTransport(c, sessLogFactory{s.r, id}, &recStorage{s.r, id}, nil, s.max).(*transport)
 	e.cli = NewClientWithSendNotifier(e.xp, nil, nil, func(q SeqNumber) { s.r.ev("sn %d %d", id, int(q)) })
 	e.srv = NewServer(e.xp, nil)
@@ -359,10 +364,12 @@ type sessPlan struct {
 	extra   int
 	inject  []string // hostile flavour: frames injected into the traffic (kind@endpoint)
 	forceAt int      // step at which the fault actor is released at the latest (-1: scheduler's choice)
+	wireCap int      // capacity of each direction of the simulated connection (0: unbounded)
+	stallRx int      // endpoint whose receive loop is held back for the first virtual seconds (-1: none)
 }
 
 func genPlan(g *prng, flavour string) sessPlan {
-	p := sessPlan{max: 1 << 20, faultAt: -1, forceAt: -1, observe: true}
+	p := sessPlan{max: 1 << 20, faultAt: -1, forceAt: -1, observe: true, stallRx: -1}
 	n := 1 + g.intn(4)
 	methods := []string{"echo", "echo", "hold", "wait", "fail"}
 	for i := 0; i < n; i++ {
@@ -393,6 +400,20 @@ func genPlan(g *prng, flavour string) sessPlan {
 		p.ops = append(p.ops, op)
 	}
 	switch flavour {
+	case "slowpeer":
+		// a small wire and a peer that does not read for a while: writes block mid-frame while contexts time out
+		p.wireCap = 24 + g.intn(40)
+		p.stallRx = g.intn(2)
+		for i := range p.ops {
+			p.ops[i].ep = 1 - p.stallRx
+			p.ops[i].pad = 60 + g.intn(120)
+			if !p.ops[i].cancel {
+				p.ops[i].timeout = time.Duration(1+g.intn(2)) * time.Second
+			}
+			if p.ops[i].method == "wait" {
+				p.ops[i].method = "echo"
+			}
+		}
 	case "burst":
 		// overlapping notification / call handlers in one direction, finishing in every order
 		ep := g.intn(2)
@@ -452,7 +473,13 @@ func runSession(g *prng, p sessPlan, script []string) (hist []string, trace []st
 	}
 	s := &session{r: r, max: p.max, hctx: map[string]context.Context{}, extra: p.extra}
 	baseline := libGoroutines()
-	a, b := newSimPair(0)
+	a, b := newSimPair(p.wireCap)
+	if p.stallRx >= 0 {
+		// the receive loop goroutines are started by setup in endpoint order
+		name := fmt.Sprintf("transport.receiveFrames#0.go/%d", p.stallRx)
+		t0 := time.Now()
+		r.holds[name] = func(int) bool { return time.Since(t0) >= 4*time.Second }
+	}
 	// constructing the transports starts library goroutines: do it in an actor
 	ready := false
 	r.spawn("setup", func() {
@@ -630,7 +657,7 @@ func runSession(g *prng, p sessPlan, script []string) (hist []string, trace []st
 
 func init() {
 	verifModes["session"] = func(c *vctx) {
-		flavours := strings.Split(c.envOr("VERIF_FLAVOURS", "plain,close,limit,hostile,faultat,burst"), ",")
+		flavours := strings.Split(c.envOr("VERIF_FLAVOURS", "plain,close,limit,hostile,faultat,burst,slowpeer"), ",")
 		leaks := 0
 		var totalSteps int
 		var faBase *sessPlan
